@@ -3,6 +3,7 @@
 // concurrent duplicate requests plus bystanders at the lock / storage / handler boundaries,
 // with injected storage and lock faults.  family.go adds the request / handler / configuration family (methods,
 // response shapes, handler failures incl. panic, Config fields, lifetime x clock, corrupted records, reused ctx).
+// keepalive-* scenarios: connections = threads owning one RequestCtx each and serving several requests on it.
 package main
 
 import (
@@ -26,6 +27,7 @@ import (
 
 const keyA = "aaaaaaaa-aaaa-aaaa-aaaa-aaaaaaaaaaaa"
 const keyB = "bbbbbbbb-bbbb-bbbb-bbbb-bbbbbbbbbbbb"
+const keyZ = "zzzzzzzz-zzzz-zzzz-zzzz-zzzzzzzzzzzz" // carried by the foreign request a recycled RequestCtx receives
 
 type reqSpec struct {
 	ID     string
@@ -56,6 +58,23 @@ type params struct {
 	// built-in storage's janitor thread (a daemon thread of the execution) is due: it sweeps WHILE the concurrent
 	// requests look up, lock and store. The concurrent phase is then judged like a phase without warm-up.
 	ExpireWarm bool
+	// Conns: keep-alive connections during the concurrent phase. Every connection is one thread that owns ONE
+	// fasthttp.RequestCtx and serves its requests one after the other on it (reset between requests as fasthttp does on
+	// a keep-alive connection), concurrently with the other connections. nil = every request of Reqs on a connection
+	// of its own. When set, Reqs is the concatenation of the connections' requests (see withConns).
+	// In every scenario a connection's RequestCtx is recycled after its last request (it goes back to fasthttp's pool
+	// and a foreign connection's request is parsed into it): whatever the middleware or its lock still keeps for the
+	// requests that are in flight must not alias the buffers of a request that has been answered.
+	Conns [][]reqSpec
+}
+
+// withConns sets the connections of a scenario (and Reqs, their concatenation, which the oracle walks).
+func withConns(p params, conns ...[]reqSpec) params {
+	p.Conns, p.Reqs = conns, nil
+	for _, c := range conns {
+		p.Reqs = append(p.Reqs, c...)
+	}
+	return p
 }
 
 // injected storage: yields at every call, may fail
@@ -150,6 +169,7 @@ func runScenario(p params) func(e *schedx.Exec) *schedx.Outcome {
 			n++
 		}
 		obs := make([]respObs, n)
+		inflight := make([]bool, n) // request handed to the app and not yet answered
 		warmObs := map[string]respObs{}
 		var mlock *idempotency.MemoryLock
 		lockedKeysAtEnd := -1
@@ -179,19 +199,23 @@ func runScenario(p params) func(e *schedx.Exec) *schedx.Outcome {
 				// copies: these strings are used as map keys beyond the request (they alias the request buffers)
 				rid := strings.Clone(c.Get("X-Req"))
 				key := strings.Clone(c.Get("X-Idempotency-Key"))
+				ckey := key // executions are counted per key for the protected (unsafe) methods, apart for the safe ones
+				if c.Method() != "POST" {
+					ckey = "safe:" + key
+				}
 				verifrt.YieldOn("handler.enter", hs)
-				hs.started[key]++
+				hs.started[ckey]++
 				hs.ranFor[rid]++
-				k := hs.started[key]
+				k := hs.started[ckey]
 				verifrt.YieldOn("handler.work", hs)
 				c.Status(201)
 				c.Response().Header.Add("X-A", "one")
 				c.Response().Header.Add("X-A", "two")
 				c.Cookie(&fiber.Cookie{Name: "sid", Value: fmt.Sprintf("v%d", k)})
-				if p.FailFirst && key == keyA && k == 1 {
+				if p.FailFirst && ckey == keyA && k == 1 {
 					return fiber.NewError(503, "boom")
 				}
-				hs.completed[key]++
+				hs.completed[ckey]++
 				if p.EmptyBody {
 					return nil
 				}
@@ -201,21 +225,25 @@ func runScenario(p params) func(e *schedx.Exec) *schedx.Outcome {
 			app.Get("/", h)
 			handler := app.Handler()
 			var sharedCtx fasthttp.RequestCtx
-			useShared := p.SharedCtx
-			do := func(i int, rs reqSpec) {
+			// recycle: the RequestCtx is handed to a foreign connection; its request (served elsewhere) is parsed into it
+			foreign := fx.Req("GET", "http://elsewhere.example/", "X-Req", "zzzz", "X-Idempotency-Key", keyZ)
+			recycle := func(fctx *fasthttp.RequestCtx) {
+				fctx.Request.Reset()
+				fctx.Response.Reset()
+				fctx.ResetUserValues()
+				foreign.CopyTo(&fctx.Request)
+			}
+			do := func(i int, rs reqSpec, fctx *fasthttp.RequestCtx) {
 				req := fx.Req(rs.Method, "http://example.com/", "X-Req", rs.ID)
 				if rs.Key != "" {
 					req.Header.Set("X-Idempotency-Key", rs.Key)
 				}
-				var own fasthttp.RequestCtx
-				fctx := &own
-				if useShared && (len(warmObs) < len(p.Warm) || i == 0) {
-					fctx = &sharedCtx // warm phase, and the first of the concurrent requests
-				}
+				fctx.ResetUserValues() // as the server does between the requests of one connection
 				mark := len(faultLog)
+				inflight[i] = true
 				fx.CallInto(fctx, handler, req, nil, false)
+				inflight[i] = false
 				o := respObs{ID: rs.ID, Status: fctx.Response.StatusCode(), Body: string(fctx.Response.Body()), CT: string(fctx.Response.Header.ContentType())}
-				_ = own
 				for _, v := range fctx.Response.Header.PeekAll("X-A") {
 					o.XA = append(o.XA, string(v))
 				}
@@ -231,7 +259,14 @@ func runScenario(p params) func(e *schedx.Exec) *schedx.Outcome {
 				obs[i] = o
 			}
 			for _, rs := range p.Warm {
-				do(0, rs)
+				fctx := &sharedCtx
+				if !p.SharedCtx {
+					fctx = &fasthttp.RequestCtx{}
+				}
+				do(0, rs, fctx)
+				if !p.SharedCtx {
+					recycle(fctx)
+				}
 				o := obs[0]
 				o.Ran = hs.ranFor[rs.ID]
 				warmObs[rs.Key] = o
@@ -243,13 +278,36 @@ func runScenario(p params) func(e *schedx.Exec) *schedx.Outcome {
 				hs.started, hs.completed, hs.ranFor = map[string]int{}, map[string]int{}, map[string]int{}
 				warmObs = map[string]respObs{}
 			}
-			for i, rs := range p.Reqs {
-				i, rs := i, rs
-				verifrt.GoNamed(rs.ID, false, func() { do(i, rs) })
+			conns := p.Conns
+			if conns == nil {
+				for _, rs := range p.Reqs {
+					conns = append(conns, []reqSpec{rs})
+				}
+			}
+			next := 0
+			for ci, conn := range conns {
+				base, conn := next, conn
+				next += len(conn)
+				fctx := &fasthttp.RequestCtx{}
+				if p.SharedCtx && ci == 0 {
+					fctx = &sharedCtx // the connection that carried the warm requests
+				}
+				name := conn[0].ID
+				for _, rs := range conn[1:] {
+					name += "+" + rs.ID
+				}
+				verifrt.GoNamed(name, false, func() {
+					for j, rs := range conn {
+						do(base+j, rs, fctx)
+					}
+					recycle(fctx)
+				})
 			}
 			verifrt.Join()
 			if p.Sequential2 {
-				do(len(p.Reqs), reqSpec{ID: "late", Method: "POST", Key: keyA})
+				fctx := &fasthttp.RequestCtx{}
+				do(len(p.Reqs), reqSpec{ID: "late", Method: "POST", Key: keyA}, fctx)
+				recycle(fctx)
 			}
 			lockedKeysAtEnd = mlock.VerifLockedKeys()
 		})
@@ -268,6 +326,11 @@ func runScenario(p params) func(e *schedx.Exec) *schedx.Outcome {
 		}
 		if res.Deadlock {
 			viol("deadlock blocked="+strings.Join(opsOnly(res.Blocked), ","), "requests blocked forever", res.Blocked, nil)
+			for i, rs := range p.Reqs {
+				if inflight[i] && !(rs.Key == keyA && rs.Method == "POST") {
+					viol("bystander-blocked-forever kind="+bystanderKind(rs), "a request with another key / without key / with a safe method is never answered", rs, "answered")
+				}
+			}
 		}
 		if res.Horizon {
 			viol("horizon", "step horizon exceeded (livelock?)", nil, nil)
@@ -526,6 +589,60 @@ func main() {
 		mk("expired-janitor-dup2-late-memory", params{Warm: warmAB[:1], ExpireWarm: true, Reqs: dup(2), Storage: "memory", Locker: "default", Sequential2: true},
 			xplore.Bounds{0, 2, 0, 0}, xplore.Bounds{0, 3, 0, 0}, false),
 	)
+	// keep-alive connections during the concurrent phase: a connection (one thread, one RequestCtx) carries a FURTHER
+	// request after its duplicate of key A was answered, while the other connections' duplicates of A still wait on
+	// the lock / execute. Family: follow-up request kind (safe method or POST with another key, POST without key,
+	// POST / GET with the same key) x first execution fails or not x storage x 1-2 other duplicate connections x
+	// one or both connections keep-alive. Judged by the oracle of the concurrent phase (at most one completion per
+	// key, duplicates answered alike, bystanders run once with their own answer, nobody blocked forever, no lock
+	// entry left behind).
+	kaFollow := map[string]reqSpec{
+		"get-b":  {ID: "getB", Method: "GET", Key: keyB},
+		"post-b": {ID: "postB", Method: "POST", Key: keyB},
+		"nokey":  {ID: "nokey", Method: "POST"},
+		"post-a": {ID: "dupSame", Method: "POST", Key: keyA},
+		"get-a":  {ID: "getA", Method: "GET", Key: keyA},
+	}
+	ka := func(follow string, others int, failFirst bool, storage string, secondFollow string, quick bool) {
+		d := dup(1 + others)
+		conns := [][]reqSpec{{d[0], kaFollow[follow]}}
+		for i, o := range d[1:] {
+			c := []reqSpec{o}
+			if i == 0 && secondFollow != "" {
+				f := kaFollow[secondFollow]
+				f.ID += "2"
+				c = append(c, f)
+			}
+			conns = append(conns, c)
+		}
+		name := fmt.Sprintf("keepalive-%s-dup%d-%s", follow, 1+others, storage)
+		if secondFollow != "" {
+			name += "-and-" + secondFollow
+		}
+		if failFirst {
+			name += "-failfirst"
+		}
+		if !quick && r.Quick() {
+			return
+		}
+		scenarios = append(scenarios, mk(name, withConns(params{Storage: storage, Locker: "default", FailFirst: failFirst}, conns...),
+			xplore.Bounds{0, 2, 0, 0}, xplore.Bounds{0, 3, 0, 0}, false))
+	}
+	for _, follow := range []string{"get-b", "post-b", "nokey", "post-a", "get-a"} {
+		for _, failFirst := range []bool{true, false} {
+			for _, storage := range []string{"injected", "memory"} {
+				for _, others := range []int{1, 2} {
+					// quick tier: a diagonal (every follow-up kind with a failing first execution; three connections
+					// for the follow-ups that replace the key header's value); the thorough tier runs the product
+					quick := failFirst && storage == "injected" && ((others == 2) == (follow == "get-b" || follow == "nokey"))
+					quick = quick || (!failFirst && storage == "memory" && others == 1 && follow == "post-b")
+					ka(follow, others, failFirst, storage, "", quick)
+				}
+			}
+		}
+	}
+	ka("get-b", 1, true, "memory", "nokey", true)
+	ka("post-b", 1, false, "injected", "get-a", false)
 	// request / handler / configuration family (family.go)
 	scenarios = append(scenarios, famScenarios(r)...)
 	schedx.RunAll(r, scenarios, 16)
@@ -536,8 +653,9 @@ func main() {
 		Level:      "model_checking",
 		Exhaustive: true,
 		Coverage: schedx.Coverage(r, scenarios, map[string]any{
-			"family_rule": "fam-seq / fam-conc (family.go): members = ball of the stated radius around the base over the dimensions cfg x life x adv x method x shape x behave x store x variant x up x ctx (values in the scenario params); fam-seq serves nine requests one after the other (first, duplicate varying path/body/method, safe method with the key, key in the other header name, other key, invalid key, clock advance, duplicate with an optional corrupted/failing lookup, duplicate, duplicate of the other key), fam-conc serves the first two in flight together under all schedules; a sequential reference model (recorded answer per key with its time, lifetime in whole storage seconds) judges every request, three-valued where nothing is specified (counters unspecified_*); violations are minimised by resetting dimensions to base",
-			"rule":        "every scenario is a closed driver (fresh app per execution, 2-4 request threads); ALL interleavings at the scheduling points (MemoryLock and countedLock mutex operations, storage mutex operations, injected storage Get/Set/Delete, handler entry/work seams, thread spawn/join) are enumerated depth-first by prefix replay under the stated preemption / fault bounds (-1 = unbounded with happens-before state pruning); the oracle runs on every complete execution",
+			"family_rule":     "fam-seq / fam-conc (family.go): members = ball of the stated radius around the base over the dimensions cfg x life x adv x method x shape x behave x store x variant x up x ctx (values in the scenario params); fam-seq serves nine requests one after the other (first, duplicate varying path/body/method, safe method with the key, key in the other header name, other key, invalid key, clock advance, duplicate with an optional corrupted/failing lookup, duplicate, duplicate of the other key), fam-conc serves the first two in flight together under all schedules; a sequential reference model (recorded answer per key with its time, lifetime in whole storage seconds) judges every request, three-valued where nothing is specified (counters unspecified_*); violations are minimised by resetting dimensions to base",
+			"connection_rule": "keepalive-* scenarios: every connection is one thread owning one fasthttp.RequestCtx and serving its requests one after the other on it (a keep-alive connection: a duplicate of key A, then a follow-up request: safe method or POST with another key, POST without key, POST / GET with key A) concurrently with 1-2 other connections' duplicates of A, with a failing or succeeding first execution, injected or built-in storage (quick: a diagonal, thorough: the product); in EVERY scenario a connection's RequestCtx is recycled after its last request (a foreign request with another key is parsed into it), so nothing kept for the requests still in flight may alias an answered request's buffers",
+			"rule":            "every scenario is a closed driver (fresh app per execution, 2-4 request threads); ALL interleavings at the scheduling points (MemoryLock and countedLock mutex operations, storage mutex operations, injected storage Get/Set/Delete, handler entry/work seams, thread spawn/join) are enumerated depth-first by prefix replay under the stated preemption / fault bounds (-1 = unbounded with happens-before state pruning); the oracle runs on every complete execution",
 		}),
 		Assumptions: []string{
 			"sequential consistency; scheduling only at synchronisation operations and harness seams (data-race freedom between them is assumed, see DESIGN 1.3)",
